@@ -175,7 +175,7 @@ ADV_STR = ["", "x", "y", "z", "x b=y", "y b=z", "None", "a=1", " ", "=", "x y", 
            "1", "1.0", "True", "null", '"', "'", "\\", "x  y", "a b=c d=e", "{", "#", "0", "-0.0"]
 INTS = [0, 1, -1, 2, 3, 7, 10, 255, -12, 10 ** 20, -(10 ** 18), 999999999999999]
 FLOATS = [0.0, -0.0, 1.0, 1.5, -2.5, 1e-11, 1e22, 3.14159, 1e-05, 0.1, 2.0, 1e16, 123456.789, float("inf"), float("-inf"),
-          5e-324, 1.7976931348623157e308]
+          5e-324, 1.7976931348623157e308, float("nan")]
 
 
 # classes of EQUAL values of a number-like field, each written in several ways (prefix, digits, type of the input)
@@ -208,15 +208,15 @@ DEC_CLASSES = [
     [["D", "-7.5"], ["f", "-7.5"], ["s", "-75e-1"]],
 ]
 NUM_CLASSES = {"scalar": SCALAR_CLASSES, "pref": PREF_CLASSES, "dec": DEC_CLASSES}
-NREF = 10
+NREF = 12
 # objects WITHOUT a JSON form (harness/impl/c09.py Universe.obj): functions, lambdas, user objects, an Instance ...
 NOBJ = 12
 OBJ_KIND = {0: "function", 1: "lambda", 2: "user_object", 3: "user_value_object", 4: "user_value_object", 5: "instance",
             6: "builtin", 7: "partial", 8: "lossy_repr_object", 9: "lossy_repr_object", 10: "bound_method", 11: "class"}
 OBJ_VARIANTS = {3: 3, 4: 2, 8: 2, 9: 2, 10: 2}     # value types: equal objects built separately
 REF_KIND = {0: "module", 1: "module", 8: "module", 2: "generator", 3: "extmodule", 4: "primcall", 5: "primcall", 9: "primcall",
-            6: "extcall", 7: "extcall"}
-REF_VARIANTS = {4: 4, 5: 3, 6: 3, 7: 3, 9: 3}
+            6: "extcall", 7: "extcall", 10: "frozenset", 11: "frozenset"}
+REF_VARIANTS = {4: 4, 5: 3, 6: 3, 7: 3, 9: 3, 10: 3, 11: 2}
 
 _EXACT = Context(prec=MAX_PREC, Emax=MAX_EMAX, Emin=MIN_EMIN)
 
@@ -350,7 +350,18 @@ def gen_class(r, scalar_only):
     k = r.randint(0, n)
     for f in fields[k:]:
         f["default"] = strip_form(gen_value(r, f["dtype"], 0))
+        f["default"] = denan(f["default"])      # NaN is no parameter value, and so no default
     return fields
+
+
+def denan(v):
+    if v is None:
+        return v
+    if v[0] == "f" and v[1] == "nan":
+        return ["f", "1.5"]
+    if v[0] == "R":
+        return ["R", [denan(x) for x in v[1]]] + v[2:]
+    return v
 
 
 def strip_form(v):
@@ -394,7 +405,7 @@ def rewrite_args(r, fields, args):
             out.append(["R", sub, "dict" if a[2] == "inst" else "inst"])
         elif d[0] == "float" and a[0] == "f" and a[1] in ("0.0", "-0.0") and r.random() < 0.7:
             out.append(F(-float(a[1])))
-        elif d[0] == "float" and a[0] == "f" and a[1] not in ("inf", "-inf") and float(a[1]) == int(float(a[1])) \
+        elif d[0] == "float" and a[0] == "f" and a[1] not in ("inf", "-inf", "nan") and float(a[1]) == int(float(a[1])) \
                 and abs(int(float(a[1]))) < 10 ** 15:
             out.append(I(int(float(a[1]))))
         elif d[0] == "int" and a[0] == "i" and a[1] in (0, 1):
@@ -416,9 +427,11 @@ def gen_group(r, scalar_only=False, bad=0.0, cyclic=0.0):
         extra = [rewrite_args(r, g["fields"], a) for a in base if r.random() < 0.7]
         pools.append(base + extra)
     table = []
+    # (a NaN is no parameter value: such calls are made by the histories, but are not table entries or nested calls)
+    has_nan = lambda a: '["f", "nan"]' in json.dumps(a)
     for gi, g in enumerate(univ):
         for a in pools[gi]:
-            if r.random() < 0.45:
+            if r.random() < 0.45 or has_nan(a) or any(f["default"] is not None and has_nan(f["default"]) for f in g["fields"]):
                 continue
             calls = []
             for _ in range(r.choice([0, 1, 1, 2, 3])):
@@ -428,7 +441,9 @@ def gen_group(r, scalar_only=False, bad=0.0, cyclic=0.0):
                     if gi + 1 >= ng:
                         break
                     gj = r.randrange(gi + 1, ng)
-                calls.append([gj, r.choice(pools[gj]), r.choice(["kw", "inst"])])
+                cand = [x for x in pools[gj] if not has_nan(x)] if not any(f["default"] is not None and has_nan(f["default"]) for f in univ[gj]["fields"]) else []
+                if cand:
+                    calls.append([gj, r.choice(cand), r.choice(["kw", "inst"])])
             if calls and r.random() < 0.6:
                 ret = ["pass", r.randrange(len(calls))]
             else:
@@ -669,6 +684,22 @@ def corpus_numbers():
     sp = [["D", "1E-21"], ["i", 0], ["P", "1000", -24], ["D", "0.0000000000000000000001"], ["P", "0.1", -24]]
     calls = [[0, [v], "kw"] for v in sp]
     gs.append(dict(univ=u, table=[], hists=[calls, list(reversed(calls))], tag="tolerance"))
+    # 22. NaN is not equal to itself: it is no parameter value (refused before anything runs; un-repaired tree: every call a
+    #     new module, all named `G(f=nan)`)
+    nan, inf = F(float("nan")), F(float("inf"))
+    u = [dict(name="G", fields=[dict(name="f", dtype=["float"], default=None)]),
+         dict(name="N", fields=[dict(name="n", dtype=["rec", [["opt", ["float"]], ["int"]]], default=None), dict(name="e", dtype=["bool"], default=["b", False])])]
+    NN = lambda x, k, form="inst": [1, [["R", [x, I(k)], form], None], "kw"]
+    hs = [[[0, [nan], "kw"], [0, [nan], "kw"], [0, [F(1.0)], "kw"], [0, [nan], "inst"], [0, [inf], "kw"], [0, [inf], "inst"]],
+          [[0, [inf], "kw"], [0, [nan], "kw"]],
+          [NN(nan, 1), NN(nan, 1, "dict"), NN(["n"], 1), NN(F(2.5), 1), NN(nan, 1)],
+          [NN(F(2.5), 1), NN(nan, 1)]]
+    gs.append(dict(univ=u, table=[], hists=hs, tag="float-nan"))
+    # 23. set-valued parameters: equal sets built in other orders, in interpreters with other hash seeds - one call, one name
+    u = [dict(name="S", fields=[dict(name="c", dtype=["ref"], default=None), dict(name="k", dtype=["int"], default=I(0))])]
+    calls = [[0, [["r", i, v], None], "kw" if v % 2 else "inst"] for i in (10, 11) for v in range(REF_VARIANTS[i])]
+    hs = [calls, list(reversed(calls)), [calls[1]], [calls[2]], [calls[0]], [calls[4]], [calls[3]], calls[2:] + calls[:2]]
+    gs.append(dict(univ=u, table=[], hists=hs, tag="set-valued"))
     return gs
 
 
@@ -848,7 +879,7 @@ TARGETS = ["fields_scalar", "fields_prefixed", "fields_decimal", "fields_optiona
            "equal_call_references_built_separately_pairs", "literal_values", "number_inputs_int", "number_inputs_float",
            "number_inputs_str", "number_inputs_decimal", "number_inputs_prefixed"]
 # strengthening round: histories that go on after a refused call, parameter values that cannot be named
-TARGETS += ["fields_unnameable", "fields_optional_or_nested_unnameable", "calls_refused_for_unnameable_parameters",
+TARGETS += ["calls_ref_frozenset", "calls_refused_for_a_nan_parameter", "fields_unnameable", "fields_optional_or_nested_unnameable", "calls_refused_for_unnameable_parameters",
             "refused_call_repeated_in_one_interpreter", "second_unnameable_value_after_a_refusal", "call_answered_after_a_refusal",
             "design_exported_after_a_refusal", "call_refused_in_two_fresh_interpreters", "equal_unnameable_value_objects_built_separately_pairs",
             "handed_on_module_through_a_call_with_unnameable_parameters", "refused_through_a_nested_unnameable_call",
@@ -936,6 +967,8 @@ def measure_refusals(cov, g, outs):
             objs = objs_in(fields, c[1]) if len(c[1]) == len(fields) else []
             ids = arg_ids(fields, c[1]) if len(c[1]) == len(fields) else None
             key = (c[0], ids[0]) if ids else None
+            if x[0] == "rej" and '["f", "nan"]' in json.dumps([a if a is not None else f.get("default") for f, a in zip(fields, c[1])]):
+                cov["calls_refused_for_a_nan_parameter"] += 1
             if x[0] == "rej":
                 if objs and key:
                     cov["calls_refused_for_unnameable_parameters"] += 1
